@@ -133,11 +133,14 @@ impl<'a> ser::Serializer for &'a mut SizeSerializer {
                 IsArrayElement::FirstElement => Ok(9),
                 IsArrayElement::OtherElement => Ok(8),
             },
-            Some(NonNativeType::Timestamp) => match self.is_array_element {
-                IsArrayElement::False => Ok(9),
-                IsArrayElement::FirstElement => Ok(9),
-                IsArrayElement::OtherElement => Ok(8),
-            },
+            Some(NonNativeType::Timestamp) => {
+                self.non_native_type = None;
+                match self.is_array_element {
+                    IsArrayElement::False => Ok(9),
+                    IsArrayElement::FirstElement => Ok(9),
+                    IsArrayElement::OtherElement => Ok(8),
+                }
+            }
             _ => unreachable!("serialize_i64 is only used for Long and Timestamp"),
         }
     }
@@ -274,7 +277,10 @@ impl<'a> ser::Serializer for &'a mut SizeSerializer {
                 IsArrayElement::FirstElement => Ok(1 + l),
                 IsArrayElement::OtherElement => Ok(l),
             },
-            Some(NonNativeType::LazyValue) => Ok(l),
+            Some(NonNativeType::LazyValue) => {
+                self.non_native_type = None;
+                Ok(l)
+            }
             Some(NonNativeType::Timestamp)
             | Some(NonNativeType::Symbol)
             | Some(NonNativeType::SymbolRef) => unreachable!("serialize_bytes is only used for Binary, Decimal32, Decimal64, Decimal128, and Uuid"),
